@@ -473,7 +473,7 @@ func (r *Runner) Run(c *Case) error {
 		w.mu.Lock()
 		pid, known := w.byLabel[op.Target]
 		w.mu.Unlock()
-		needs := op.Op == "kill" || op.Op == "exit" || op.Op == "crash" || op.Op == "panic"
+		needs := op.Op == "kill" || op.Op == "exit" || op.Op == "crash" || op.Op == "panic" || op.Op == "poke"
 		if needs && (!known || !alive(n, pid)) {
 			if os.Getenv("VERIF_TREEDEBUG") != "" {
 				_, e := n.ProcessInfo(pid)
@@ -487,6 +487,12 @@ func (r *Runner) Run(c *Case) error {
 			n.Kill(pid)
 		case "exit":
 			n.SendExit(pid, errors.New("asked"))
+		case "poke":
+			// a few ordinary messages (a pool forwards them to its workers and replaces dead ones on the way)
+			for i := 0; i < 6; i++ {
+				n.Send(pid, "hello")
+			}
+			time.Sleep(5 * time.Millisecond)
 		case "crash":
 			n.Send(pid, "crash")
 		case "panic":
